@@ -561,6 +561,21 @@ func (w *World) SyncTick(n *node.Node, now int64, neigh []Neighbour, ts int64) (
 	return w.syncWith(n, now, neigh, inside, "synctick", map[string]interface{}{"ts": ts, "perm": ids, "_pre": pre}, d)
 }
 
+// SyncSubmit runs a sync round during which — while the round waits for the first neighbour's answer — a transaction
+// is submitted to the node's pool.
+func (w *World) SyncSubmit(n *node.Node, now int64, neigh []Neighbour, tx *ledger.Transaction) (*Verdict, SyncStats) {
+	d := &defs{}
+	next := n.Chain.LastBlockTimestamp() + w.S.Interval
+	w.noteTx(d, tx, next)
+	var pre [][4]interface{}
+	w.valsFor(&pre, tx, next)
+	inside := func() {
+		defer w.guard("submit")
+		n.Pool.AddTransaction(tx, "", n.Name)
+	}
+	return w.syncWith(n, now, neigh, inside, "syncsubmit", map[string]interface{}{"tx": tx.Id(), "_pre": pre}, d)
+}
+
 func (w *World) syncWith(n *node.Node, now int64, neigh []Neighbour, inside func(), opName string, more map[string]interface{}, d0 *defs) (*Verdict, SyncStats) {
 	var once sync.Once
 	var fired atomic.Bool
